@@ -286,6 +286,7 @@ class GraphStream(TripleStream):
         """
         self.check_usable()
         graph_start = jelly.RdfGraphStart()
+        self.encoder.new_row()
         [*graph_rows] = self.encoder.encode_graph(graph_id, graph_start)
         start_row = jelly.RdfStreamRow(graph_start=graph_start)
         graph_rows.append(start_row)
